@@ -13,7 +13,9 @@ TraceLog == ndJsonDeserialize(IOEnv.TRACE_FILE)
 SplittingLabels == {"P_qq_0", "P_qg_0", "P_gq_0", "P_gg_0", "P_qq_1", "P_qg_1", "P_nsp_1", "P_nsm_1", "P_qq_0^2", "P_qg_0P_gq_0",
                     "P_qq_0P_qg_0", "P_qg_0P_gg_0"}
 Judge(L) ==
-  IF L.what = "kernel" /\ <<L.kind, L.pc, L.cls, L.order>> \notin Elements THEN "not_a_registry_element"
+  \* (the empty distribution - what a massive class answers below the pair threshold for every order - satisfies the rule trivially)
+  IF L.what = "kernel" /\ L.empty THEN (IF L.cls \in ClassKeys(L.kind, L.pc) THEN "ok" ELSE "not_a_registry_class")
+  ELSE IF L.what = "kernel" /\ <<L.kind, L.pc, L.cls, L.order>> \notin Elements THEN "not_a_registry_element"
   ELSE IF L.what = "splitting" /\ L.cls \notin SplittingLabels THEN "not_a_splitting_label"
   ELSE IF ~L.finite THEN "non_finite_part"
   ELSE IF L.has_sing /\ ~L.has_loc THEN "singular_part_without_local_part"
